@@ -660,7 +660,9 @@ class PortCollection (object):
     if self._chain:
       p = self._chain[index]
       if p.port_no not in self._masks:
-        return p
+        # Not if we have our own (newer) version of that port
+        if not any(q.port_no == p.port_no for q in self._ports):
+          return p
 
     raise IndexError("No key %s" % (index,))
 
